@@ -500,3 +500,13 @@ Lemma findnodes_reply_records_any_phase shuf : is_shuffle shuf -> forall init_do
     ((r = self /\ In 0 dists) \/
      (exists d b, In d dists /\ 1 <= d <= 256 /\ nth_error tab (bucket_index d) = Some b /\ In (r, true) b)).
 Proof. intros Hs init_done tab self rip dists enrs H. rewrite findnodes_any_phase in H. now apply (findnodes_reply_records shuf Hs). Qed.
+
+(* through the talk handler the relay check is made against the packet's source address, whatever the sender's record advertises *)
+Lemma talk_find_nodes_relay shuf : is_shuffle shuf -> forall init_done tab self packet_src enr_endpoint dists enrs,
+  handle_talk_find_nodes init_done tab self packet_src enr_endpoint shuf dists = Ok enrs ->
+  forall r, In r enrs -> relay_ok packet_src (rflags r) = true.
+Proof.
+  intros Hs init_done tab self packet_src enr_endpoint dists enrs H r Hr.
+  unfold handle_talk_find_nodes, talk_source in H.
+  destruct (findnodes_reply_records_any_phase shuf Hs _ _ _ _ _ _ H) as [_ H2]. now destruct (H2 r Hr).
+Qed.
